@@ -1,7 +1,16 @@
 //! Common field parsing functionality shared across modules
 
 use crate::{FieldType, Result, StringRef, Value};
-use std::io::Read;
+use std::io::{Cursor, Read};
+
+/// Capacity to reserve for `count` elements of `elem_size` bytes each that are about to be
+/// read from `cursor`. The count comes from the file, so it is only trusted as far as the
+/// remaining input can hold that many elements.
+pub(crate) fn bounded_capacity(cursor: &Cursor<&[u8]>, count: u32, elem_size: usize) -> usize {
+    let position = usize::try_from(cursor.position()).unwrap_or(usize::MAX);
+    let remaining = cursor.get_ref().len().saturating_sub(position);
+    (count as usize).min(remaining / elem_size.max(1))
+}
 
 /// Parse a field value based on its type
 pub fn parse_field_value<R: Read>(reader: &mut R, field_type: FieldType) -> Result<Value> {
